@@ -82,7 +82,7 @@ def run(tier):
             tot[k] += sm.get(k, 0)
         for i, n in enumerate(sm["ops"]):
             ops_hist[i] += n
-        if sm["overflow"]:
+        if sm.get("overflow") or sm.get("aborted"):
             ck.exhaustive = False
         for v in res["viols"]:
             ck.violation(signature(v), "%s: input %s bufsize %s choices %s: %s (expected %s/%s, observed %s/%s)" % (
